@@ -1215,18 +1215,42 @@ def replay_config(d):
     from resonaate.scenario.config.state_config import COEStateConfig, ECIStateConfig, EQEStateConfig
 
     D = math.pi / 180.0
+    hist = d.get("history")
+
+    def edited(c0, new):
+        """the history of the configuration object (see _coe_history), on the really validated object"""
+        if hist == "copy":
+            return c0.model_copy(update=new)
+        c0.toECI(None)
+        if hist == "copy-of-used":
+            return c0.model_copy(update=new)
+        for k_, v_ in new.items():
+            setattr(c0, k_, v_)
+        return c0
+
     if d["kind"] == "eci":
-        x = ECIStateConfig(position=d["position"], velocity=d["velocity"]).toECI(None)
+        if hist:
+            x = edited(ECIStateConfig(position=[7000.0, 1.0, 2.0], velocity=[0.0, 7.5, 0.1]), {"position": d["position"], "velocity": d["velocity"]}).toECI(None)
+        else:
+            x = ECIStateConfig(position=d["position"], velocity=d["velocity"]).toECI(None)
         err = float(np.abs(np.asarray(x) - np.array(d["position"] + d["velocity"])).max())
         return err > 0, {"error": err}
     if d["kind"] == "coe":
         f = d["fields"]
-        x = COEStateConfig(semi_major_axis=d["a"], eccentricity=d["e"], inclination=d["inc_deg"], **f).toECI(None)
+        if hist:
+            c0 = COEStateConfig(semi_major_axis=FIRST_COE["a"], eccentricity=FIRST_COE["e"], inclination=FIRST_COE["inc_deg"], **{n: FIRST_COE["angle_deg"] for n in f})
+            x = edited(c0, dict(semi_major_axis=d["a"], eccentricity=d["e"], inclination=d["inc_deg"], **f)).toECI(None)
+        else:
+            x = COEStateConfig(semi_major_axis=d["a"], eccentricity=d["e"], inclination=d["inc_deg"], **f).toECI(None)
         raan, argp, anom = (v * D for v in _variant_elements(d["variant"], f))
         ref = coe2eci(d["a"], d["e"], d["inc_deg"] * D, *singularityCheck(d["e"], d["inc_deg"] * D, raan, argp, anom))
         err = float(np.abs(x - ref).max())
         return err > KM_TOL / 2, {"state": x, "coe2eci of the described elements": ref, "error": err}
-    x = EQEStateConfig(semi_major_axis=d["a"], h=d["h"], k=d["k"], p=d["p"], q=d["q"], mean_longitude=d["lam_deg"], retrograde=d["retro"]).toECI(None)
+    if hist:
+        c0 = EQEStateConfig(semi_major_axis=FIRST_EQE["a"], h=FIRST_EQE["h"], k=FIRST_EQE["k"], p=FIRST_EQE["p"], q=FIRST_EQE["q"], mean_longitude=FIRST_EQE["lam_deg"], retrograde=d["retro"])
+        x = edited(c0, dict(semi_major_axis=d["a"], h=d["h"], k=d["k"], p=d["p"], q=d["q"], mean_longitude=d["lam_deg"])).toECI(None)
+    else:
+        x = EQEStateConfig(semi_major_axis=d["a"], h=d["h"], k=d["k"], p=d["p"], q=d["q"], mean_longitude=d["lam_deg"], retrograde=d["retro"]).toECI(None)
     ref = eqe2eci(d["a"], d["h"], d["k"], d["p"], d["q"], d["lam_deg"] * D, retro=d["retro"])
     err = float(np.abs(x - ref).max())
     return err > KM_TOL / 2, {"state": x, "eqe2eci of the described elements": ref, "error": err}
@@ -1239,7 +1263,39 @@ def _deg(name, D):
     return r / D
 
 
-def o6a_config_coe(rep):
+FIRST_COE = {"a": 7100.0, "e": 0.02, "inc_deg": 35.0, "angle_deg": 40.0}   # the values a configuration object holds before it is edited (O6c)
+FIRST_EQE = {"a": 7100.0, "h": 0.01, "k": 0.02, "p": 0.1, "q": -0.2, "lam_deg": 40.0}
+HISTORIES = ("assign", "copy", "copy-of-used")
+
+
+def _coe_history(history, COEStateConfig, names, a, e, inc_deg, f):
+    """the configuration object's history before the conversion that is checked: really validated and converted once with other
+    numbers (same field combination), then edited through the public API"""
+    c0 = COEStateConfig(semi_major_axis=FIRST_COE["a"], eccentricity=FIRST_COE["e"], inclination=FIRST_COE["inc_deg"], **{n: FIRST_COE["angle_deg"] for n in names})
+    new = dict(semi_major_axis=a, eccentricity=e, inclination=inc_deg, **f)
+    if history == "copy":
+        return c0.model_copy(update=new)
+    c0.toECI(None)
+    if history == "copy-of-used":
+        return c0.model_copy(update=new)
+    for k_, v_ in new.items():
+        setattr(c0, k_, v_)
+    return c0
+
+
+def _eqe_history(history, EQEStateConfig, retro, new):
+    c0 = EQEStateConfig(semi_major_axis=FIRST_EQE["a"], h=FIRST_EQE["h"], k=FIRST_EQE["k"], p=FIRST_EQE["p"], q=FIRST_EQE["q"], mean_longitude=FIRST_EQE["lam_deg"], retrograde=retro)
+    if history == "copy":
+        return c0.model_copy(update=new)
+    c0.toECI(None)
+    if history == "copy-of-used":
+        return c0.model_copy(update=new)
+    for k_, v_ in new.items():
+        setattr(c0, k_, v_)
+    return c0
+
+
+def o6a_config_coe(rep, history=None):
     from resonaate.physics import constants as const
     from resonaate.physics.orbits import utils as UT
     from resonaate.physics.orbits import conversions as CV
@@ -1253,8 +1309,11 @@ def o6a_config_coe(rep):
             assume(a.t >= 6600, a.t <= 50000, e.t >= 0, e.t < rv(0.9), inc_rad.t >= 0, inc_rad.t <= PI)
             inc_deg = inc_rad / D
             f = {n: _deg(n, D) for n in names}
-            cfg = COEStateConfig.model_construct(semi_major_axis=a, eccentricity=e, inclination=inc_deg, **f)
-            cfg.validate_elements()
+            if history is None:
+                cfg = COEStateConfig.model_construct(semi_major_axis=a, eccentricity=e, inclination=inc_deg, **f)
+                cfg.validate_elements()
+            else:
+                cfg = _coe_history(history, COEStateConfig, names, a, e, inc_deg, f)
             # attributes ClassicalElements computes besides the elements (period, mean motion, mean anomaly) do not enter toECI
             with _quiet(), shadow(EL, getPeriod=lambda *a_, **k_: 0.0, getMeanMotion=lambda *a_, **k_: 0.0, trueAnom2MeanAnom=lambda *a_, **k_: 0.0):
                 x = cfg.toECI(None)
@@ -1279,18 +1338,19 @@ def o6a_config_coe(rep):
             def inputs(m, variant=variant, f=f, r=r):
                 fl = {n: min(model_angle(m, r.path, z3.Real(n)) / D, 359.99999999999994) for n in f}
                 return {"kind": "coe", "variant": variant, "a": mfloat(m, z3.Real("a")), "e": mfloat(m, z3.Real("e")),
-                        "inc_deg": min(180.0, mfloat(m, z3.Real("inc")) / D), "fields": fl}
+                        "inc_deg": min(180.0, mfloat(m, z3.Real("inc")) / D), "fields": fl, "history": history}
 
             n += 1
             for j in range(6):
                 prove(rep, f"{variant}-state[{j}][{t}]", close_arrays(x[j:j + 1], ref[j:j + 1], KM_TOL), r.constraints, inputs=inputs, replay=replay_config,
-                      sample="COEStateConfig.toECI = coe2eci of the elements the fields describe (degrees -> radians, documented singular-case folding)")
+                      sample="COEStateConfig.toECI = coe2eci of the elements the fields describe (degrees -> radians, documented singular-case folding)"
+                      + (f"; configuration object with history '{history}' (validated and used with other numbers, then edited through the public API)" if history else ""))
         if n == 0:
             rep.error("reach", f"{variant}: no path")
         rep.reachable(f"{variant}-inputs", [z3.Real("a") == 7000])
 
 
-def o6b_config_eci_eqe(rep):
+def o6b_config_eci_eqe(rep, history=None):
     from resonaate.physics import constants as const
     from resonaate.physics.orbits import anomaly as AN
     AN = _Sym(AN)  # results that come back as plain numbers are lifted
@@ -1303,9 +1363,19 @@ def o6b_config_eci_eqe(rep):
     D = const.DEG2RAD
     with single_path() as p:
         pos, vel = reals("pos", 3), reals("vel", 3)
-        x = ECIStateConfig.model_construct(position=list(pos), velocity=list(vel)).toECI(None)
+        if history is None:
+            ecfg = ECIStateConfig.model_construct(position=list(pos), velocity=list(vel))
+        else:
+            ecfg = ECIStateConfig(position=[7000.0, 1.0, 2.0], velocity=[0.0, 7.5, 0.1])
+            if history != "copy":
+                ecfg.toECI(None)
+            if history == "assign":
+                ecfg.position, ecfg.velocity = list(pos), list(vel)
+            else:
+                ecfg = ecfg.model_copy(update={"position": list(pos), "velocity": list(vel)})
+        x = ecfg.toECI(None)
         ref = np.concatenate([pos, vel])
-        inputs = lambda m: {"kind": "eci", "position": [mfloat(m, v.t) for v in pos], "velocity": [mfloat(m, v.t) for v in vel]}  # noqa: E731
+        inputs = lambda m: {"kind": "eci", "position": [mfloat(m, v.t) for v in pos], "velocity": [mfloat(m, v.t) for v in vel], "history": history}  # noqa: E731
         for j in range(6):
             prove(rep, f"eci-state[{j}]", _z(x[j]) == _z(ref[j]), p.constraints(), inputs=inputs, replay=replay_config, sample="ECIStateConfig.toECI = [position; velocity]")
         rep.reachable("eci-inputs", [pos[0].t == 7000])
@@ -1314,7 +1384,10 @@ def o6b_config_eci_eqe(rep):
         def run(retro=retro):
             a, h, k, pp, q, lam = real("a"), real("h"), real("k"), real("p"), real("q"), _deg("lam", D)
             assume(a.t >= 6600, a.t <= 50000, (h * h + k * k).t < rv(0.81), pp.t >= -50, pp.t <= 50, q.t >= -50, q.t <= 50)
-            cfg = EQEStateConfig.model_construct(semi_major_axis=a, h=h, k=k, p=pp, q=q, mean_longitude=lam, retrograde=retro)
+            if history is None:
+                cfg = EQEStateConfig.model_construct(semi_major_axis=a, h=h, k=k, p=pp, q=q, mean_longitude=lam, retrograde=retro)
+            else:
+                cfg = _eqe_history(history, EQEStateConfig, retro, dict(semi_major_axis=a, h=h, k=k, p=pp, q=q, mean_longitude=lam))
             ks = KeplerStub()
             with _quiet(), shadow(EL, getPeriod=lambda *a_, **k_: 0.0, getMeanMotion=lambda *a_, **k_: 0.0), shadow(getattr(AN, "_m", AN), keplerSolveEQE=ks.eqe), shadow(UT, arctan=arctan_via_arctan2):
                 x = cfg.toECI(None)
@@ -1337,7 +1410,7 @@ def o6b_config_eci_eqe(rep):
                     lem.append(eq)
 
             def inputs(m, retro=retro, r=r):
-                d = {"kind": "eqe", "retro": retro, "lam_deg": min(model_angle(m, r.path, z3.Real("lam")) / D, 359.99999999999994)}
+                d = {"kind": "eqe", "retro": retro, "lam_deg": min(model_angle(m, r.path, z3.Real("lam")) / D, 359.99999999999994), "history": history}
                 for nm in ("a", "h", "k", "p", "q"):
                     d[nm] = mfloat(m, z3.Real(nm))
                 return d
@@ -1569,6 +1642,7 @@ def _o4_eqe(rep, part):
 
 
 REPLAYS = {"O1": replay_sing, "O1b": replay_sing, "O1c": replay_sing, "O2a": replay_anom, "O2b": replay_anom, "O2c": replay_anom, "O3a": replay_coe2eci_form, "O3v": replay_vec, "O3b": replay_eci2coe, "O3b1": replay_eci2coe, "O3b2": replay_eci2coe, "O3c": replay_eci2coe, "O3c2": replay_eci2coe, "O3d": replay_eci2coe, "O3e": replay_eci2coe, "O4a": replay_eqe_frame, "O4b": replay_eqe_frame, "O6a": replay_config, "O6b": replay_config}
+REPLAYS.update({f"O6c-{k_}-{h_}": replay_config for k_ in ("coe", "eqe") for h_ in HISTORIES})
 
 
 def obligations(tier):
@@ -1594,6 +1668,12 @@ def obligations(tier):
     obs += [
         Ob("O6a", o6a_config_coe, "COEStateConfig.toECI for the four documented field combinations = coe2eci of the described elements", 300),
         Ob("O6b", o6b_config_eci_eqe, "ECIStateConfig / EQEStateConfig.toECI hand the configured numbers to hstack / eqe2eci unchanged", 300),
+    ] + [Ob(f"O6c-coe-{h_}", (lambda h_: lambda rep: o6a_config_coe(rep, h_))(h_),
+            "COEStateConfig.toECI of a configuration object that was validated (and converted) with other numbers and then edited through the public API "
+            "(attribute assignment / model_copy(update=...)): the state of the numbers it holds now", 400) for h_ in (HISTORIES if tier == "thorough" else HISTORIES[:1] + HISTORIES[2:])
+    ] + [Ob(f"O6c-eqe-{h_}", (lambda h_: lambda rep: o6b_config_eci_eqe(rep, h_))(h_),
+            "ECIStateConfig / EQEStateConfig.toECI of an edited configuration object: the state of the numbers it holds now", 400) for h_ in (HISTORIES if tier == "thorough" else HISTORIES[:1] + HISTORIES[2:])
+    ] + [
     ]
     if tier == "thorough":
         obs.append(Ob("O4a", o4a_eqe_elements, "coe2eqe / getEquinoctialBasisVectors: p, q, h, k definitions, equinoctial frame = rot3(-raan) rot1(-inc) rot3(I raan)", 600))
@@ -1605,3 +1685,8 @@ def obligations(tier):
 
 ASSUMPTIONS.append("numpy.isclose / numpy.allclose / math.isclose, wherever the orbit modules bind them, are their defining formulas in exact real arithmetic (a tolerance snap is a branch the solver sees)")
 OUTSIDE.append("angle values within 1e-4 of a full turn as concrete replay inputs: the angle algebra relates an angle to its cosine/sine by range and turn count only, so a counterexample that needs the value itself that close to 2 pi is found by the solver but does not concretise (reported as a harness error, not as a violation)")
+BOUNDS["configuration histories (O6c)"] = ("one edit step: the configuration object is really validated (and, except in 'copy', converted once) with fixed first numbers of the same field "
+                                           "combination, then every numeric field is replaced by a symbolic value through attribute assignment ('assign') or model_copy(update=...) "
+                                           "('copy', 'copy-of-used'); quick tier: 'assign' and 'copy-of-used'")
+OUTSIDE.append("configuration histories other than the listed single edit step (edits that change the field combination - the validator's flags are documented to be set at validation - , "
+               "several edits, dump-edit-revalidate round trips)")
